@@ -51,19 +51,20 @@ def main():
         missing = [n for n in base['stable_pass'] if not got.get(n)]
         res['suite_stable_failing_with_change'] = missing
     # our checks
-    assert sh('git -C /repo status --porcelain --untracked-files=no')[1].strip() == '', '/repo not clean'
-    rc, o = sh(f'git -C /repo apply {os.path.join(out, "patch.diff")}')
+    REPO = os.environ.get('HARVEST_REPO', '/repo')       # a clean worktree can stand in while /repo is busy
+    assert sh(f'git -C {REPO} status --porcelain --untracked-files=no')[1].strip() == '', f'{REPO} not clean'
+    rc, o = sh(f'git -C {REPO} apply {os.path.join(out, "patch.diff")}')
     res['applies_to_repo_head'] = rc == 0
     caught = {}
     if rc == 0:
         try:
             props = [pid] + [p for p in sys.argv[3:] if p.startswith('C')]
             for p in props:
-                c, o = sh(f'./check {p} --tier quick', cwd=VERIF, env=dict(os.environ, VERIF_SEED=os.environ.get('VERIF_SEED', '1')))
+                c, o = sh(f'./check {p} --tier quick', cwd=VERIF, env=dict(os.environ, VERIF_SEED=os.environ.get('VERIF_SEED', '1'), VERIF_REPO=REPO, VERIF_REPLAY_DIR=('replays' if REPO == '/repo' else 'replays/harvest')))
                 line = [l for l in o.splitlines() if l.startswith('VIOLATION')]
                 caught[p] = (line[0] if line else ('exit %d' % c))
         finally:
-            sh('git -C /repo checkout -- .')
+            sh(f'git -C {REPO} checkout -- .')
     res['checks'] = caught
     meta = {'id': f'agent{rnd}-{pid}', 'property': pid, 'origin': 'independent sub-agent given only the property text and a scratch worktree',
             'what': '', 'needs_to_manifest': needs, 'ran': res}
